@@ -1,7 +1,7 @@
 #!/bin/bash
 # seed_detect.sh <patch> <property> [more properties...]: apply a seeded change to /repo, run the quick checks, undo it.
 patch=$1; shift
-cd /repo && git checkout -q -- . && { git apply "$patch" 2>/dev/null || git apply --3way "$patch" 2>/dev/null; } || { echo "APPLY-FAILED $patch"; exit 2; }
+cd /repo && git checkout -q -- . && { git apply "$patch" 2>/dev/null || git apply --3way "$patch" 2>/dev/null; } || { git -C /repo reset -q --hard HEAD; echo "APPLY-FAILED $patch"; exit 2; }
 git -C /repo reset -q
 for p in "$@"; do
   out=$(cd /verif && timeout 1500 python3 bin/check --property $p --tier quick 2>&1); rc=$?
